@@ -9,6 +9,9 @@ import J5V.Props.C17
 #print axioms J5V.Props.C17.C17_primary_keys
 #print axioms J5V.Props.C17.C17_primary_key_required
 #print axioms J5V.Props.C17.C17_status_numbering
+#print axioms J5V.Props.C17.C17_state_skeleton
+#print axioms J5V.Props.C17.C17_event_skeleton
+#print axioms J5V.Props.C17.C17_event_oneof_skeleton
 #print axioms J5V.Props.C17.C17_src_strcase_calls
 #print axioms J5V.Props.C17.C17_src_component_name
 #print axioms J5V.Props.C17.C17_src_suffixes
